@@ -28,7 +28,7 @@ def harness_dirs():
 def gen_cases(ctx, nshards=None):
     """All cases of the tier with the specification's expectations, from TLC (sharded over processes)."""
     cfg = "Gen_Cql_quick.cfg" if ctx.tier == "quick" else "Gen_Cql_thorough.cfg"
-    nshards = nshards or max(2, min(8, vf.NCPU // 2))
+    nshards = nshards or max(2, min(12, vf.NCPU * 3 // 4))
 
     def one(i):
         return vf.run_tlc(ctx, "Gen_Cql", cfg, workers=1, heap="3g", timeout=800, deadlock=False,
@@ -453,7 +453,7 @@ def collect(ctx):
     binary = vf.build_gotest(ctx, ".", harness_dirs())
     cases = gen_cases(ctx)
     results = replay(ctx, binary, cases)
-    recs, verdicts = random_vectors(ctx, binary, 4000 if quick else 60000)
+    recs, verdicts = random_vectors(ctx, binary, 3000 if quick else 40000)
     return cases, results, recs, verdicts
 
 
